@@ -2,3 +2,4 @@
 import FhVerif.Props.C32
 import FhVerif.Props.C30
 import FhVerif.Props.C26
+import FhVerif.Props.C24
